@@ -60,48 +60,91 @@ def r5_registry(run, tree):
     run.ob("units/units.py::UnitRegistry-construction", ok, sites[0][0].where(sites[0][1]) if sites and sites[0][0] else "units/units.py",
            "%d registry constructions: %s" % (len(sites), [s[0].qual if s[0] else "module level" for s in sites]),
            "units from two registries never compare equal and cannot be converted into each other")
-    if sites:
-        kws = {k.arg: const_value(k.value) for k in sites[0][1].keywords}
-        run.ob("units/units.py::UnitRegistry-system", kws.get("system") == "cgs", sites[0][0].where(sites[0][1]) if sites[0][0] else "",
-               "registry system = %r" % kws.get("system"), "base-unit conversions (to_base_units, G as Gaussian) change meaning")
     # exactly one Units() instance at module level, exported as `units`
     mi = tree.module("units/units.py")
     inst = [st for st in mi.tree.body if isinstance(st, ast.Assign) and isinstance(st.value, ast.Call) and norm(st.value.func) == "Units"]
     run.ob("units/units.py::single-instance", len(inst) == 1 and is_name(inst[0].targets[0], "units"), "units/units.py",
            "%d module-level Units() instances" % len(inst), "osyris.units and the units used by Array differ")
-    # configure_constants is applied to that registry
-    ui = tree.func("units/units.py::Units.__init__")
-    cfg = any(isinstance(n, ast.Call) and isinstance(n.func, ast.Attribute) and n.func.attr == "configure_constants"
-              and n.args and norm(n.args[0]) == "%s._ureg" % params(ui)[0] for n in walk_no_nested(ui.node))
-    run.ob("units/units.py::Units.__init__::constants-defined", cfg, ui.where(), "configure_constants(self._ureg) %s" % (
-        "called" if cfg else "not called"), "M_sun, R_sun, ... undefined")
-    # __call__ contract
-    fi = tree.func("units/units.py::Units.__call__")
-    run.analysed(fi)
-    pn = params(fi)
-    verdicts = {}
-    for path in enumerate_paths(fi.node.body):
-        kind = None
-        for it in path:
-            if it[0] == "test" and isinstance(it[1], ast.Call) and is_name(it[1].func, "isinstance") and is_name(it[1].args[0], pn[1]):
-                d = tree.dotted(fi.module, it[1].args[1])
-                if it[2] and d in ("pint.Quantity", "pint.Unit"):
-                    kind = d.split(".")[1]
-        ex = path[-1]
-        if kind is None:
-            kind = "other"
-        if ex[1] == "raise":
-            verdicts.setdefault(kind, []).append("raise")
-        elif ex[1] == "return" and ex[2].value is not None:
-            verdicts.setdefault(kind, []).append(norm(ex[2].value))
-        else:
-            verdicts.setdefault(kind, []).append("None")
-    run.ob("units/units.py::Units.__call__[Quantity]", verdicts.get("Quantity") == ["raise"], fi.where(),
-           "a Quantity argument -> %s" % verdicts.get("Quantity"), "units(3*m) silently drops the magnitude")
-    run.ob("units/units.py::Units.__call__[Unit]", verdicts.get("Unit") == [pn[1]], fi.where(),
-           "a Unit argument -> %s" % verdicts.get("Unit"), "a unit object is re-parsed or replaced")
-    run.ob("units/units.py::Units.__call__[str]", verdicts.get("other") == ["%s._ureg(%s).units" % (pn[0], pn[1])], fi.where(),
-           "any other argument -> %s" % verdicts.get("other"), "equivalent spellings parsed by different registries")
+    # the Units class folded on a recording registry: constants defined on THE registry; __call__ contract; define forwarded
+    from ..models import ModelEval, Raised
+    from ..peval import Model, Unsupported
+    from .array_folds import Q, U
+    from .core_models import RawTok
+    regs, configured = [], []
+
+    class Registry(Model):
+        def __init__(self, *a, **k):
+            self.kw, self.defined = k, []
+            regs.append(self)
+
+        def define(self, *a, **k):
+            self.defined.append((a, k))
+
+        def __call__(self, arg):
+            reg = self
+
+            class Parsed(Model):
+                units = ("parsed-by", id(reg), arg)
+                u = units
+            return Parsed()
+
+    class Config(Model):
+        def configure_constants(self, reg, *a):
+            configured.append(reg)
+    hk = {"ext": {"pint.UnitRegistry": Registry, "pint.registry.UnitRegistry": Registry},
+          "globals": {"config/__init__.py::config": Config(), "__init__.py::config": Config()}}
+    ui = tree.cls("units/units.py::Units")
+    init = tree.method(ui, "__init__")
+    run.analysed(init)
+    try:
+        ev = ModelEval(tree, init, {}, hk)
+        inst = ev.instantiate(ui, [], {}, None)
+        ok = len(regs) == 1 and configured == regs
+        run.ob("units/units.py::Units.__init__::constants-defined", ok, init.where(), "%d registries constructed by Units(); configure_constants "
+               "applied to %s" % (len(regs), "that registry" if ok else "%d registries" % len(configured)), "M_sun, R_sun, ... undefined")
+        run.ob("units/units.py::UnitRegistry-system", len(regs) == 1 and regs[0].kw.get("system") == "cgs", init.where(),
+               "registry system = %r" % (regs[0].kw.get("system") if regs else None), "base-unit conversions (to_base_units, G as Gaussian) change meaning")
+        call = tree.method(ui, "__call__")
+        run.analysed(call)
+        cases = [("Quantity", Q(RawTok("q"), U("cm")), "raises TypeError", "units(3*m) silently drops the magnitude"),
+                 ("Unit", U("cm"), "same object", "a unit object is re-parsed or replaced"),
+                 ("str", "cm", ("parsed-by", id(regs[0]) if regs else 0, "cm"), "equivalent spellings parsed by different registries")]
+        for label, arg, want, fam in cases:
+            try:
+                r = ev.invoke(call, [inst, arg], {}, None)
+                got = "same object" if r is arg else r
+            except Raised as e:
+                got = "raises " + e.name
+            run.ob("units/units.py::Units.__call__[%s]" % label, got == want, call.where(), "%s argument -> %s" % (label, got if not isinstance(got, tuple) else "parsed by the registry of this instance"), fam)
+        # a history of spellings: every string is parsed as written (a cache may only be keyed on the exact string: in pint a
+        # space is a multiplication, "m s" is not "ms")
+        seq = ["ms", "m s", "m  s", "g / cm**3", "g/cm**3", "ms", "c m", "cm"]
+        got_seq = []
+        for sp in seq:
+            try:
+                got_seq.append(ev.invoke(call, [inst, sp], {}, None))
+            except Raised as e:
+                got_seq.append("raises " + e.name)
+        import re
+
+        def canon(t):
+            # spaces next to an operator or at the ends are insignificant; a space between two names is a multiplication
+            return re.sub(r"\s+", " ", re.sub(r"\s*([*/()])\s*", r"\1", t.strip())) if isinstance(t, str) else t
+        wrong = [(sp, g[2] if isinstance(g, tuple) else g) for sp, g in zip(seq, got_seq)
+                 if not (isinstance(g, tuple) and g[:2] == ("parsed-by", id(regs[0]) if regs else 0) and canon(g[2]) == canon(sp))]
+        run.ob("units/units.py::Units.__call__[history of spellings]", not wrong, call.where(),
+               "units(s) over the sequence %s: %s" % (seq, "each parsed as written by the one registry" if not wrong else
+                                                      "; ".join("units(%r) gives the unit parsed from %r" % w for w in wrong[:3])),
+               "units('m s') returns millisecond after units('ms') was seen (a cache keyed on a normalised spelling)")
+        d = tree.method(ui, "define")
+        if d is not None:
+            ev.invoke(d, [inst, "x = 1 * cm"], {}, None)
+            run.ob("units/units.py::Units.define", bool(regs) and regs[0].defined[-1:] == [(("x = 1 * cm",), {})], d.where(),
+                   "define forwards to the registry: %s" % (regs[0].defined[-1:] if regs else None), "user-defined units land nowhere", nontrivial=False)
+    except Raised as e:
+        run.violated("units/units.py::Units", init.where(), "raises %s" % e, "import osyris")
+    except Unsupported as e:
+        run.unresolved("units/units.py::Units", init.where(), "cannot fold: %s" % e)
 
 
 RULES = [r1_r2_array_to, r3_vector_to, r4_constants, r5_registry]
